@@ -2973,6 +2973,97 @@ def run_repeat(ctx: Ctx, pending):
         ctx.count("repeat.histories")
 
 
+def run_square_underdetermined(ctx: Ctx):
+    """(round-6 seed C07-6) GN with the DEFAULT solver on SQUARE, rank-deficient problems without an exactly zero column:
+    N so3 parameters fitted to one point pair each (3N x 3N, rank 2N), N se3 parameters fitted to two pairs each (6N x 6N,
+    rank 5N); 30 (control) … 66 unknowns, both dtypes.  Algebra parameters are updated by addition, so delta = x_new - x_old
+    exactly, and the property (`gn_minnorm`: the pseudo-inverse contract) says delta is the MINIMUM-NORM least-squares solution
+    of J delta = -R.  Oracle independent of PyPose: Rodrigues / left-Jacobian formulas in plain float64 torch, autograd for J,
+    an SVD for the minimum-norm solution."""
+    P = pp()
+
+    def hat(v):
+        z = torch.zeros_like(v[..., 0])
+        return torch.stack([torch.stack([z, -v[..., 2], v[..., 1]], -1), torch.stack([v[..., 2], z, -v[..., 0]], -1),
+                            torch.stack([-v[..., 1], v[..., 0], z], -1)], -2)
+
+    def rod(phi):
+        th = phi.norm(dim=-1)[..., None, None]
+        K = hat(phi)
+        I = torch.eye(3, dtype=phi.dtype)
+        return I + (th.sin() / th) * K + ((1 - th.cos()) / th ** 2) * (K @ K), I + ((1 - th.cos()) / th ** 2) * K + ((th - th.sin()) / th ** 3) * (K @ K)
+
+    def res_so3(x, Pk, Qk):          # x (N,3); Pk, Qk (1,N,3)
+        R_, _ = rod(x)
+        return (torch.einsum("nab,knb->kna", R_, Pk) - Qk)
+
+    def res_se3(x, Pk, Qk):          # x (N,6) = [tau, phi]; Pk, Qk (2,N,3)
+        R_, Jl = rod(x[..., 3:])
+        t = torch.einsum("nab,nb->na", Jl, x[..., :3])
+        return torch.einsum("nab,knb->kna", R_, Pk) + t[None] - Qk
+    plans = [("so3", 10), ("so3", 11), ("so3", 16), ("so3", 22), ("se3", 5), ("se3", 6), ("se3", 8), ("se3", 11)]
+    for alg, N in plans:
+        for dt_ in ("float64", "float32"):
+            for explicit in ((False, True) if (N in (11, 6) and dt_ == "float64") else (False,)):
+                D_ = U.dt(dt_)
+                gen = torch.Generator().manual_seed(7_0906 + 100 * N + (1 if alg == "se3" else 0))
+                dim, K = (3, 1) if alg == "so3" else (6, 2)
+                x0 = (torch.randn(N, dim, generator=gen, dtype=torch.float64) * 0.4).to(D_)
+                Pk = torch.randn(K, N, 3, generator=gen, dtype=torch.float64).to(D_)
+                Qk = (Pk.double() * 0.9 + 0.3 * torch.randn(K, N, 3, generator=gen, dtype=torch.float64)).to(D_)
+                case = {"kind": "square-underdetermined", "algebra": alg, "N": N, "columns": N * dim, "dtype": dt_, "explicit_PINV": explicit,
+                        "x0": x0.double().tolist(), "P": Pk.double().tolist(), "Q": Qk.double().tolist()}
+
+                class Mdl(nn.Module):
+                    def __init__(self):
+                        super().__init__()
+                        self.x = P.Parameter(getattr(P, alg)(x0.clone()))
+
+                    def forward(self, pts):
+                        return self.x.Exp().Act(pts)
+                m_ = Mdl()
+                opt = P.optim.GN(m_, solver=P.optim.solver.PINV()) if explicit else P.optim.GN(m_)
+                try:
+                    with contextlib.redirect_stdout(io.StringIO()), warnings.catch_warnings():
+                        warnings.simplefilter("ignore")
+                        opt.step(Pk, target=Qk)
+                except Exception as e:
+                    ctx.fail(case, f"raises: GN (default solver) on a square rank-deficient problem with {N * dim} unknowns raises "
+                                   f"{type(e).__name__}: {str(e)[:160]}")
+                    continue
+                delta = (raw(m_.x).detach().double() - x0.double()).reshape(-1)
+                # independent float64 linearisation at x0
+                xs = x0.double().clone().requires_grad_(True)
+                f_ = (res_so3 if alg == "so3" else res_se3)
+                r0 = f_(xs, Pk.double(), Qk.double()).reshape(-1)
+                J = torch.autograd.functional.jacobian(lambda z: f_(z, Pk.double(), Qk.double()).reshape(-1), xs).reshape(r0.numel(), -1).detach()
+                r0 = r0.detach()
+                Uu, S, Vh = torch.linalg.svd(J)
+                rank = N * (2 if alg == "so3" else 5)
+                gap_ok = bool(S[rank - 1] > 1e-3 * S[0]) and bool(S[rank:].max() < 1e-12 * S[0]) if rank < S.numel() else False
+                if not gap_ok or J.shape[0] != J.shape[1]:
+                    ctx.count("square.rank-unclear")
+                    continue
+                ref = Vh[:rank].T @ ((Uu[:, :rank].T @ (-r0)) / S[:rank])
+                eps = EPS[dt_]
+                cond = float(S[0] / S[rank - 1])
+                tol = (2e4 * eps * cond) * (1.0 + float(ref.norm()))
+                ctx.note_case(("square", alg, N, dt_, explicit), True)
+                ctx.count(f"square.{alg}.cols{N * dim}")
+                if not bool(torch.isfinite(delta).all()):
+                    ctx.fail(case, f"non-finite: the GN step on a square rank-deficient problem ({N * dim} unknowns) gives non-finite parameters")
+                    continue
+                nres = float((J.T @ (J @ delta + r0)).norm())
+                nlim = 2e4 * eps * float(S[0]) * (float(S[0]) * float(delta.norm()) + float(r0.norm())) + 1e-300
+                if not (nres <= nlim) or not (float(delta.norm()) <= float(ref.norm()) * (1 + 1e3 * eps * cond) + tol) \
+                        or not bool(((delta - ref).abs() <= tol).all()):
+                    ctx.fail(case, f"minnorm: GN with {'PINV()' if explicit else 'the default solver'} on {N} {alg} parameters "
+                                   f"({J.shape[0]}x{J.shape[1]} Jacobian of rank {rank}, no zero column): x_new - x_old is not the minimum-norm "
+                                   f"least-squares solution of J delta = -R: |delta| = {float(delta.norm()):.3e} vs {float(ref.norm()):.3e}, "
+                                   f"|Jᵀ(J delta + R)| = {nres:.3e} (allowed {nlim:.3e}), max |delta - pinv solution| = "
+                                   f"{float((delta - ref).abs().max()):.3e} (allowed {tol:.3e})")
+
+
 def run_ctor_checks(ctx: Ctx):
     """(26) sign conventions that are documented validity checks: non-positive clamps / damping / radius are rejected"""
     P = pp()
@@ -3190,11 +3281,11 @@ def corner_cases(quick=True):
         out.append(make_case(rng, opt=opt, wmode="both", ncalls=2, nbad=0, **{**q5, "subclass": 1.0, "prop_weight": 1.0}))
     if quick:
         # the finite-difference Jacobian oracle is the expensive part (two forward passes per tangent column): in the quick tier
-        # the corpus uses it on the first call of every second history only, and not at all in the pass-5 cases about weights / dtypes /
+        # the corpus uses it on the first call of every third history only, and not at all in the pass-5 cases about weights / dtypes /
         # defaults (the Jacobian is still compared with the model's column layout and enters every system check)
         for k_, c in enumerate(out):
             for ci, call in enumerate(c["calls"]):
-                call["jac_check"] = bool(call.get("jac_check", True)) and ci == 0 and (k_ < n5 + 15) and (k_ % 2 == 0 or k_ >= n5)
+                call["jac_check"] = bool(call.get("jac_check", True)) and ci == 0 and (k_ < n5 + 15) and (k_ % 3 == 0 or k_ >= n5)
     # frozen parameter (known defect on the current tree)
     out.append(make_case(rng, opt="GN", ptypes=[["E", 3], ["G", "SE3"]], frozen=[True, False], dtype="float64"))
     out.append(make_case(rng, opt="LM", ptypes=[["G", "SO3"], ["A", "SE3"], ["S"]], frozen=[False, True, False], dtype="float64"))
@@ -3252,6 +3343,7 @@ def run(ctx: Ctx):
     flush(ctx, pending)
     run_ctor_checks(ctx)
     run_defaults(ctx)
+    run_square_underdetermined(ctx)
     run_repeat(ctx, pending)
     run_large_update(ctx, pending)
     run_large_corrector(ctx)
@@ -3291,6 +3383,10 @@ def replay(ctx: Ctx, case) -> bool:
     elif c.get("kind") == "itemwise":
         c.pop("n_frozen", None)
         check_itemwise(ctx, c)
+    elif c.get("kind") in ("square-underdetermined", "defaults", "large-update", "large-corrector"):
+        # deterministic streams (fixed generators): the stored case names the failing problem, the whole stream is re-run
+        {"square-underdetermined": lambda: run_square_underdetermined(ctx), "defaults": lambda: run_defaults(ctx),
+         "large-update": lambda: run_large_update(ctx, pending), "large-corrector": lambda: run_large_corrector(ctx)}[c["kind"]]()
     else:
         c.pop("n_frozen", None)
         check_case(ctx, c, pending)
